@@ -291,6 +291,14 @@ CtxOK(e) ==
          [] e.name = "dr_write" ->
                LET ws == SelectSeq(ins, LAMBDA i : i.m = "mov_to_dr") IN
                Len(ws) = 2 /\ ws[1].a = W(0) /\ ws[1].c = c /\ ws[2].a = W(7) /\ ws[2].c = d
+         [] e.name = "cr4_carry" ->                        \* DR0 receives c + d + carry(c + d)
+               LET cd == AddC(c, d, 0)
+                   ws == SelectSeq(ins, LAMBDA i : i.m = "mov_to_dr") IN
+               Len(ws) = 1 /\ ws[1].a = W(0) /\ ws[1].c = Add(cd.v, W(cd.c)).v
+         [] e.name = "wi_carry" ->                         \* the branch follows the closure's carry
+               LET cd == AddC(c, d, 0)
+                   ws == SelectSeq(ins, LAMBDA i : i.m = "mov_to_dr") IN
+               Len(ws) = 1 /\ ws[1].a = W(IF cd.c = 1 THEN 1 ELSE 0) /\ ws[1].c = cd.v
          [] e.name = "cs_twice" ->
                LET rs == SelectSeq(ins, LAMBDA i : i.m = "retfq")
                    ss == SelectSeq(ins, LAMBDA i : i.m = "mov_to_sreg") IN
@@ -343,6 +351,18 @@ Check(e) ==
             /\ Bit(e.r[3], 21) # Bit(e.r[2], 21)
       [] e.op = "mxcsr_rt" -> e.got = e.v /\ e.ind = e.v
       [] e.op = "ctx" -> CtxOK(e)
+      [] e.op = "lean" ->
+            LET a == e.args[1]  b == e.args[2]  ab == AddC(a, b, 0) IN
+            e.k = "ok" /\
+            CASE e.name = "cr4_carry" ->      \* DR0 := a + b + carry, with a typed CR4 write in between
+                    LET ws == SelectSeq(e.instrs, LAMBDA i : i.m = "mov_to_dr") IN
+                    Len(ws) = 1 /\ ws[1].a = W(0) /\ ws[1].c = Add(ab.v, W(ab.c)).v
+              [] e.name = "wi_carry" ->       \* counter := a + b, wraps (was 5) counts the carry
+                    e.got = << ab.v, W(5 + ab.c) >>
+              [] e.name = "port_w32" ->
+                    Len(e.instrs) = 1 /\ e.instrs[1].m = "out" /\ e.instrs[1].a = b
+                    /\ e.instrs[1].b = W(4) /\ e.instrs[1].c = a
+              [] OTHER -> FALSE
       [] e.op = "dr7_rt" -> e.got = e.want /\ e.got_flags = e.flags     \* DR7 fields written are read back
       [] e.op = "mxcsr_upd" -> e.got = e.v /\ e.seen = e.saved
       [] e.op = "port_eq" -> PortEqOK(e)
